@@ -209,6 +209,8 @@ def emit_actions(body):
 
 
 def run(ck):
+    if getattr(ck, 'depth', 0) >= 2:
+        return      # a shared run of a shared run: nothing of it is selected, and mutual sharing must end somewhere
     F = ck.facts
     L = F.lib
     vocab = load_oracle('qt_ui_elements.json')
@@ -454,6 +456,7 @@ def run(ck):
     import core as _core
     import rules.c15 as c15
     sub = _core.Check('C15', ck.tier, ck.facts)
+    sub.depth = getattr(ck, 'depth', 0) + 1
     c15.run(sub)
     n5 = 0
     for o in sub.obligations:
